@@ -91,7 +91,9 @@ Variants(ln) ==
            <<"declare-zero", "LOCUS       SEED1                      0 bp    DNA     linear   SYN 29-FEB-2020", 0, "declared:0">>,
            <<"bad-date", "LOCUS       SEED1                     70 bp    DNA     linear   SYN 31-FEB-2020", 0, "">>,
            <<"bad-molecule", "LOCUS       SEED1                     70 bp    XNA     linear   SYN 29-FEB-2020", 0, "">>,
-           <<"short-locus", "LOCUS       SEED1", 0, "">> }
+           <<"short-locus", "LOCUS       SEED1", 0, "">>,
+           <<"declare-huge", "LOCUS       SEED1    9223372036854775807 bp    DNA     linear   SYN 29-FEB-2020", 0, "declared:huge">>,
+           <<"declare-big", "LOCUS       SEED1             2000000000 bp    DNA     linear   SYN 29-FEB-2020", 0, "declared:huge">> }
     [] ln.kind = "DBLINK" ->
          { <<"dblink-empty", "DBLINK      BioProject:", 0, "dblink">>, <<"dblink-x", "DBLINK      X:", 0, "dblink">>,
            <<"dblink-nocolon", "DBLINK      BioProject PRJNA1", 0, "">> }
@@ -99,14 +101,17 @@ Variants(ln) ==
          { <<"dbcont-empty", "            BioSample:", 0, "dblink">>, <<"dbcont-shrunk", "           BioSample: SAMN1", 0, "indent">> }
     [] ln.kind = "FIELD" ->
          { <<"widen-name", "DEFINITIONXXXX widened field name", 0, "widename">>, <<"bare-name", "COMMENT", 0, "">>,
-           <<"name-no-pad", "VERSION SD000001.1", 0, "indent">> }
+           <<"name-no-pad", "VERSION SD000001.1", 0, "indent">>,
+           <<"ref-1000", "REFERENCE   1000 (bases 1 to 70)", 0, "">>, <<"ref-100", "REFERENCE   100  (bases 1 to 70)", 0, "">>,
+           <<"ref-noinfo", "REFERENCE   7", 0, "">>, <<"contig-extra", "CONTIG      join(X1:1..70)", 0, "">> }
     [] ln.kind = "CONT" ->
          { <<"cont-shrunk", "           shrunk continuation indent", 0, "indent">>, <<"cont-grown", "             grown continuation indent", 0, "">>,
            <<"cont-empty", "", 0, "">> }
     [] ln.kind = "SUB" ->
          { <<"sub-shifted", "   AUTHORS  Seed,A.", 0, "">>, <<"sub-wide", "  ORGANISMXXXXXX s", 0, "indent">> }
     [] ln.kind = "FKEY" ->
-         { <<"fkey-badloc", "     gene            join(5..", 0, "">>, <<"fkey-shrunk", "    gene            5..20", 0, "">>, <<"fkey-noloc", "     gene", 0, "">> }
+         { <<"fkey-badloc", "     gene            join(5..", 0, "">>, <<"fkey-shrunk", "    gene            5..20", 0, "">>, <<"fkey-noloc", "     gene", 0, "">>,
+           <<"fkey-wide", "     a_very_long_feature_key1..6", 0, "">>, <<"fkey-wide2", "     abcdefghijklmnopq1..6", 0, "">> }
     [] ln.kind = "FQUAL" ->
          { <<"fqual-unterminated", "                     /note=\"never closed", 0, "">>, <<"fqual-shrunk", "                    /gene=\"x\"", 0, "">> }
     [] ln.kind = "ODATA" /\ ln.res = 10 ->
@@ -148,14 +153,16 @@ BlockSizes(ls) ==
   LET os == {j \in 1..Len(ls) : ls[j].kind = "ORIGIN"}
   IN IF os = {} THEN {0} ELSE {RunRes(ls, j + 1) : j \in os}
 Flags(ls) == {ls[j].flag : j \in 1..Len(ls)} \ {""}
-DeclaredFlag(f) == f \in {"declared:60", "declared:2", "declared:71", "declared:130", "declared:0"}
-DeclaredValue(f) == CASE f = "declared:60" -> 60 [] f = "declared:2" -> 2 [] f = "declared:71" -> 71 [] f = "declared:130" -> 130 [] OTHER -> 0
+DeclaredFlag(f) == f \in {"declared:60", "declared:2", "declared:71", "declared:130", "declared:0", "declared:huge"}
+DeclaredValue(f) == CASE f = "declared:60" -> 60 [] f = "declared:2" -> 2 [] f = "declared:71" -> 71 [] f = "declared:130" -> 130 [] f = "declared:huge" -> 2000000000 [] OTHER -> 0
 
 \* the three inconsistency classes the property names, for a single-record
 \* GenBank text derived from Seed1 (declared 70 unless a LOCUS variant says otherwise):
 \*   length    declared length # residues in the ORIGIN block
 \*   indent    a field line shorter than its indent / a field name without its padding
 \*   dblink    an empty DBLINK value
+ContigOnly(ls) == (\E j \in 1..Len(ls) : ls[j].kind = "CONTIG" \/ ls[j].text = "CONTIG      join(X1:1..70)")
+                  /\ ~\E j \in 1..Len(ls) : ls[j].kind = "ORIGIN"
 Inconsistent(ls, dflt) ==
   LET fs == Flags(ls)
       ds == {f \in fs : DeclaredFlag(f)}
@@ -166,7 +173,9 @@ Inconsistent(ls, dflt) ==
                  (ls[j].kind = "DBCONT" /\ \E i \in 1..(j - 1) : ls[i].kind = "DBLINK" /\ \A q \in (i + 1)..(j - 1) : ls[q].kind = "DBCONT")
       dblinkBad == \E j \in 1..Len(ls) : ls[j].flag = "dblink" /\ inDb(j)
   IN IF nLocus # 1 THEN {}      \* several or no records: judged on totality only
-     ELSE (IF declared \notin BlockSizes(ls) THEN {"length"} ELSE {})
+     \* a record without ORIGIN that carries a CONTIG line describes its
+     \* sequence by reference: its declared length is not a residue count
+     ELSE (IF declared \notin BlockSizes(ls) /\ ~ContigOnly(ls) THEN {"length"} ELSE {})
           \cup (fs \cap {"indent", "widename"})
           \cup (IF dblinkBad THEN {"dblink"} ELSE {})
 
